@@ -2499,3 +2499,254 @@ mod tests {
         DatabaseKeyIndex::new(IngredientIndex::new(ingredient), id)
     }
 }
+
+/// Verification hooks (compiled only with `--cfg salsa_verif`): safe wrappers that let an external
+/// harness drive the private edge/origin encoders and the cancellation token on raw integers.
+#[cfg(salsa_verif)]
+pub mod verif_hooks {
+    use super::*;
+
+    /// `(is_output, ingredient (untagged), index, generation)`
+    pub type RawEdge = (bool, u32, u32, u32);
+
+    fn mk(e: RawEdge) -> QueryEdge {
+        // SAFETY: the harness only passes indices below `Id::MAX_U32`.
+        let id = unsafe { Id::from_index(e.2) }.with_generation(e.3);
+        let key = DatabaseKeyIndex::new(IngredientIndex::new(e.1), id);
+        if e.0 {
+            QueryEdge::output(key)
+        } else {
+            QueryEdge::input(key)
+        }
+    }
+
+    fn raw(e: QueryEdge) -> RawEdge {
+        let k = e.key();
+        (
+            matches!(e.kind(), QueryEdgeKind::Output),
+            k.ingredient_index().as_u32(),
+            k.key_index().index(),
+            k.key_index().generation(),
+        )
+    }
+
+    fn raw_key(k: DatabaseKeyIndex) -> (u32, u32, u32) {
+        (
+            k.ingredient_index().as_u32(),
+            k.key_index().index(),
+            k.key_index().generation(),
+        )
+    }
+
+    /// What an `OriginAndExtra` decodes to.
+    #[derive(Debug, Default, Clone, PartialEq, Eq)]
+    pub struct Decoded {
+        /// 1 = assigned, 3 = derived, 2 = derived untracked
+        pub kind: u8,
+        pub assigned_key: Option<(u32, u32, u32)>,
+        pub edges: Vec<RawEdge>,
+        pub edges_rev: Vec<RawEdge>,
+        pub inputs: Vec<(u32, u32, u32)>,
+        pub outputs: Vec<(u32, u32, u32)>,
+        pub iter_outputs: Vec<RawEdge>,
+        /// raw tag byte, metadata word
+        pub tag: u8,
+        pub metadata: u32,
+        pub has_extra: bool,
+        /// `(cycle_converged, iteration stamp bits, tracked struct ids)` of the extra data
+        pub extra: Option<(bool, u16, Vec<(u32, u32)>)>,
+    }
+
+    fn decode(o: &OriginAndExtra) -> Decoded {
+        let mut d = Decoded::default();
+        let origin = o.origin();
+        match origin {
+            QueryOriginRef::Assigned(k) => {
+                d.kind = 1;
+                d.assigned_key = Some(raw_key(k));
+            }
+            QueryOriginRef::Derived(_) => d.kind = 3,
+            QueryOriginRef::DerivedUntracked(_) => d.kind = 2,
+        }
+        d.edges = origin.edges().iter().map(raw).collect();
+        d.edges_rev = origin.edges().iter().rev().map(raw).collect();
+        d.inputs = origin.inputs().map(raw_key).collect();
+        d.outputs = origin.outputs().map(raw_key).collect();
+        d.iter_outputs = origin.edges().iter_outputs().map(raw).collect();
+        d.tag = o.tag.0;
+        d.metadata = o.metadata;
+        d.has_extra = o.extra().is_some();
+        d.extra = o.extra().map(|x| {
+            (
+                x.cycle_converged,
+                x.iteration.load().verif_bits(),
+                x.tracked_struct_ids
+                    .iter()
+                    .map(|(_, id)| (id.index(), id.generation()))
+                    .collect(),
+            )
+        });
+        d
+    }
+
+    fn extra_of(marker: Option<(bool, u16)>) -> QueryRevisionsExtra {
+        QueryRevisionsExtra(marker.map(|(converged, stamp)| {
+            let mut x = QueryRevisionsExtraInner::empty();
+            x.cycle_converged = converged;
+            x.iteration = IterationStamp::verif_from_bits(stamp).into();
+            x
+        }))
+    }
+
+    /// Operation applied after construction.
+    #[derive(Debug, Clone, Copy, PartialEq, Eq)]
+    pub enum After {
+        Nothing,
+        ClearEdges,
+        InsertExtra,
+    }
+
+    /// Builds a derived origin from `edges` (+ optional extra marker), optionally applies `after`,
+    /// and decodes the result.
+    pub fn derived_roundtrip(
+        untracked: bool,
+        edges: &[RawEdge],
+        extra: Option<(bool, u16)>,
+        after: After,
+    ) -> Decoded {
+        let it = edges.iter().copied().map(mk).collect::<Vec<_>>().into_iter();
+        let mut o = if untracked {
+            OriginAndExtra::derived_untracked(it, extra_of(extra))
+        } else {
+            OriginAndExtra::derived(it, extra_of(extra))
+        };
+        apply(&mut o, after);
+        decode(&o)
+    }
+
+    pub fn assigned_roundtrip(
+        key: (u32, u32, u32),
+        extra: Option<(bool, u16)>,
+        after: After,
+    ) -> Decoded {
+        // SAFETY: the harness only passes indices below `Id::MAX_U32`.
+        let id = unsafe { Id::from_index(key.1) }.with_generation(key.2);
+        let key = DatabaseKeyIndex::new(IngredientIndex::new(key.0), id);
+        let mut o = match extra_of(extra).0 {
+            Some(x) => OriginAndExtra::assigned_with_extra(key, x),
+            None => OriginAndExtra::assigned(key),
+        };
+        apply(&mut o, after);
+        decode(&o)
+    }
+
+    fn apply(o: &mut OriginAndExtra, after: After) {
+        match after {
+            After::Nothing => {}
+            After::ClearEdges => {
+                #[cfg(not(feature = "persistence"))]
+                o.clear_edges();
+            }
+            After::InsertExtra => {
+                o.get_or_insert_extra();
+            }
+        }
+    }
+
+    /// serde_json-free persisted round trip: `PersistentQueryOrigin` → its serialized edge keys →
+    /// back (the harness supplies the serializer).
+    #[cfg(feature = "persistence")]
+    pub fn persisted_roundtrip<F>(untracked: bool, edges: &[RawEdge], via: F) -> Decoded
+    where
+        F: FnOnce(&super::persistence::PersistentQueryOrigin) -> super::persistence::PersistentQueryOrigin,
+    {
+        use super::persistence::PersistentQueryOrigin;
+        let it = edges.iter().copied().map(mk).collect::<Vec<_>>();
+        let p = if untracked {
+            PersistentQueryOrigin::derived_untracked(it)
+        } else {
+            PersistentQueryOrigin::derived(it)
+        };
+        let q = via(&p);
+        decode(&OriginAndExtra::new(q, QueryRevisionsExtra(None)))
+    }
+    #[cfg(feature = "persistence")]
+    pub use super::persistence::PersistentQueryOrigin;
+
+    /// `PackedQueryEdge::new` on a raw (possibly tagged) edge: `Some((index, metadata))`.
+    pub fn packed_new(index: u32, generation: u32, ingredient_raw: u32) -> Option<(u32, u32)> {
+        let e = QueryEdge {
+            index,
+            generation,
+            // SAFETY: a hook for exercising the encoder on arbitrary bit patterns.
+            ingredient: unsafe { IngredientIndex::new_unchecked(ingredient_raw) },
+        };
+        PackedQueryEdge::new(e).map(|p| (p.index, p.metadata))
+    }
+
+    /// `PackedQueryEdge::edge`: `(index, generation, ingredient_raw)`.
+    pub fn packed_edge(index: u32, metadata: u32) -> (u32, u32, u32) {
+        let e = PackedQueryEdge { index, metadata }.edge();
+        (e.index, e.generation, e.ingredient.as_u32())
+    }
+
+    pub fn with_tag(raw: u32, tag: bool) -> u32 {
+        // SAFETY: a hook for exercising the tag functions on arbitrary bit patterns.
+        unsafe { IngredientIndex::new_unchecked(raw) }
+            .with_tag(tag)
+            .as_u32()
+    }
+
+    pub fn tag(raw: u32) -> bool {
+        // SAFETY: a hook for exercising the tag functions on arbitrary bit patterns.
+        unsafe { IngredientIndex::new_unchecked(raw) }.tag()
+    }
+
+    /// `IterationStamp`: `(iteration, cancellation_count, increment_iteration bits)`.
+    pub fn stamp(bits: u16) -> (u8, u8, Option<u16>, bool, bool) {
+        let s = IterationStamp::verif_from_bits(bits);
+        (
+            s.iteration(),
+            s.cancellation_count(),
+            if bits == u16::MAX {
+                None
+            } else {
+                s.increment_iteration().map(|s| s.verif_bits())
+            },
+            s.is_default(),
+            s.is_initial_iteration(),
+        )
+    }
+
+    pub fn stamp_initial(cancellation_count: u8) -> u16 {
+        IterationStamp::initial(cancellation_count).verif_bits()
+    }
+
+    pub const MAX_ITERATIONS: u8 = crate::cycle::MAX_ITERATIONS;
+
+    /// The cancellation token as a state machine over its raw bits.
+    pub struct Token(CancellationToken);
+    impl Token {
+        pub fn new() -> Self {
+            Token(CancellationToken::default())
+        }
+        pub fn bits(&self) -> u8 {
+            self.0.0.load(Ordering::Relaxed)
+        }
+        pub fn cancel(&self) {
+            self.0.cancel()
+        }
+        pub fn is_cancelled(&self) -> bool {
+            self.0.is_cancelled()
+        }
+        pub fn set_cancellation_disabled(&self, disabled: bool) -> bool {
+            self.0.set_cancellation_disabled(disabled)
+        }
+        pub fn should_trigger_local_cancellation(&self) -> bool {
+            self.0.should_trigger_local_cancellation()
+        }
+        pub fn reset(&self) {
+            self.0.reset()
+        }
+    }
+}
